@@ -7,11 +7,11 @@
  "mode": "harness",
  "link_repo": ["type.c"],
  "unwind": 4,
- "variants": {"decl": ["-DV_CTX=0"], "param": ["-DV_CTX=1"], "typename": ["-DV_CTX=2"]}, "canary_variant": "param",
+ "variants": {"decl": ["-DV_CTX=0", "-DV_FORM=0"], "param": ["-DV_CTX=1", "-DV_FORM=0"], "typename": ["-DV_CTX=2", "-DV_FORM=0"], "decl.static": ["-DV_CTX=0", "-DV_FORM=1"], "param.static": ["-DV_CTX=1", "-DV_FORM=1"], "typename.static": ["-DV_CTX=2", "-DV_FORM=1"], "decl.qual": ["-DV_CTX=0", "-DV_FORM=2"], "param.qual": ["-DV_CTX=1", "-DV_FORM=2"], "typename.qual": ["-DV_CTX=2", "-DV_FORM=2"]}, "canary_variant": "param",
  "kind": "proof-const-unwind",
- "bound": "the declarators `a [ * ]` and `[ * ]` (array of unspecified size) in the three contexts declarator() is called from: ordinary declaration, parameter declaration, type name",
+ "bound": "the declarators `a [ * ]`, `a [ static 3 ]`, `a [ const 3 ]` (and their abstract forms) in the three contexts declarator() is called from: ordinary declaration, parameter declaration, type name",
  "timeout": 120, "replay": false,
- "assumes": ["next()/consume()/peek() are a token-script stand-in (PP.peek, PP.next); attr()/gnuattr() see no attribute; util.c listinsert re-stated; type.c is the real file"]
+ "assumes": ["assignexpr() is a stand-in that consumes the length token and yields the integer constant 3 (eval() is the identity on it, folding is C04); next()/consume()/peek() are a token-script stand-in (PP.peek, PP.next); attr()/gnuattr() see no attribute; util.c listinsert re-stated; type.c is the real file"]
 }
 */
 /*
@@ -20,6 +20,8 @@
  * A block-scope `int a[*];` reached qbe.c with a VLA type that has no length expression:
  * "calcvla: Assertion `t->u.array.length' failed" (C19).  declarator() knows its context: parameters and type names
  * are parsed with allowabstract, ordinary declarations without.
+ * 6.7.6.2p1: "The optional type qualifiers and the keyword static shall appear only in a declaration of a function parameter
+ * with an array type" - `int a[static 3];` at block or file scope and `sizeof(int[const 3])` must be diagnosed.
  */
 #include "decl.c"
 #include "verif.h"
@@ -27,7 +29,7 @@
 struct token tok;
 extern int g_no_error;
 const struct target *targ;
-static enum tokenkind s_kind[6]; static char *s_lit[6]; static unsigned s_pos;
+static enum tokenkind s_kind[8]; static char *s_lit[8]; static unsigned s_pos;
 void next(void) { s_pos++; tok.kind = s_kind[s_pos]; tok.lit = s_lit[s_pos]; }
 bool consume(int k) { if (tok.kind != k) return false; next(); return true; }
 bool peek(int k) { if (s_kind[s_pos + 1] != k) return false; next(); next(); return true; }
@@ -36,6 +38,9 @@ bool attr(struct attr *a, enum attrkind k) { return false; }
 bool gnuattr(struct attr *a, enum attrkind k) { return false; }
 void listinsert(struct list *list, struct list *new) { new->next = list->next; new->prev = list; list->next->prev = new; list->next = new; }
 void listremove(struct list *list) { list->next->prev = list->prev; list->prev->next = list->next; }
+static struct expr e_len;
+struct expr *assignexpr(struct scope *s) { e_len.kind = EXPRCONST; e_len.type = &typeint; e_len.u.constant.u = 3; next(); return &e_len; }
+struct expr *eval(struct expr *e) { return e; }
 void *xmalloc(size_t n) { void *p = malloc(n); __CPROVER_assume(p != 0); return p; }
 
 void
@@ -48,21 +53,33 @@ harness(void)
 	unsigned k = 0;
 	bool valid;
 
-#if V_CTX != 2
-	s_kind[0] = TIDENT; s_lit[0] = n_a; s_kind[1] = TLBRACK; s_kind[2] = TMUL; s_kind[3] = TRBRACK; s_kind[4] = TSEMICOLON;
+#if V_FORM == 0
+#define MID1 TMUL
+#define NMID 1
 #else
-	s_kind[0] = TLBRACK; s_kind[1] = TMUL; s_kind[2] = TRBRACK; s_kind[3] = TSEMICOLON;
+#define MID1 (V_FORM == 1 ? TSTATIC : TCONST)
+#define NMID 2
+#endif
+#if V_CTX != 2
+	s_kind[0] = TIDENT; s_lit[0] = n_a; s_kind[1] = TLBRACK; s_kind[2] = MID1; s_kind[3] = NMID == 2 ? TNUMBER : TRBRACK; s_kind[4] = NMID == 2 ? TRBRACK : TSEMICOLON; s_kind[5] = TSEMICOLON;
+#else
+	s_kind[0] = TLBRACK; s_kind[1] = MID1; s_kind[2] = NMID == 2 ? TNUMBER : TRBRACK; s_kind[3] = NMID == 2 ? TRBRACK : TSEMICOLON; s_kind[4] = TSEMICOLON;
 #endif
 	(void)k;
 	s_pos = 0; tok.kind = s_kind[0]; tok.lit = s_lit[0];
-	valid = in_ctx != 0;
+	valid = V_FORM == 0 ? in_ctx != 0 : in_ctx == 1;
 	g_no_error = valid;
 
 	r = declarator(&filescope, base, in_ctx == 2 ? (char **)0 : &name, (struct scope **)0, in_ctx != 0);
 
-	__CPROVER_assert(valid, "C11 6.7.6.2p4: an array of unspecified size outside function prototype scope (an ordinary declaration) is diagnosed");
+	__CPROVER_assert(valid, "C11 6.7.6.2p4 / p1: an array of unspecified size outside function prototype scope, and `static` or type qualifiers in an array declarator that does not declare a function parameter, are diagnosed");
 	__CPROVER_assume(valid);
+#if V_FORM == 0
 	__CPROVER_assert(r.type->kind == TYPEARRAY && (r.type->prop & PROPVM) && !r.type->incomplete && r.type->base == &typeint, "in a parameter declaration or type name it is a complete variable length array type of the element type");
+#else
+	__CPROVER_assert(r.type->kind == TYPEARRAY && !r.type->incomplete && r.type->base == &typeint && r.type->size == 12, "int[3]");
+	__CPROVER_assert(r.type->u.array.ptrqual == (V_FORM == 2 ? QUALCONST : QUALNONE), "the qualifiers written in [] are kept for the adjusted parameter type (6.7.6.3p7)");
+#endif
 	__CPROVER_assert(tok.kind == TSEMICOLON, "exactly the declarator is consumed");
 #ifdef VERIF_CANARY
 	__CPROVER_assert(in_ctx != 1, "CANARY");
